@@ -16,7 +16,7 @@ from ..models.synapse import synapse_ctor
 from . import neuron_world
 
 DTS = [1.0, 0.5, 0.25, 2.0, 0.1, 1.3]
-KINDS = ["neuron", "synapse", "synapse", "connection", "connection", "reducer", "reducer", "layer"]
+KINDS = ["neuron", "synapse", "synapse", "connection", "connection", "reducer", "reducer", "layer", "record"]
 
 
 def _records(module):
@@ -67,6 +67,10 @@ class ConfigWorld(World):
             cfg["delayed"] = rc.random() < 0.5
             attrs = ["dt", "B", "weight", "synapse"] + (["delay_k", "delay_values"] if cfg["delayed"] else [])
             X["delay_k"], Y["delay_k"] = rc.choice([1, 3]), rc.choice([1, 3, 2])
+        elif kind == "record":
+            cfg["shape"] = rc.choice([[2], [3]])
+            X["inclusive"], Y["inclusive"] = rc.random() < 0.5, rc.random() < 0.5
+            attrs = ["dt", "duration_k", "inclusive"]
         else:
             cfg["rkind"] = rc.choice(["nearest", "cumulative", "event", "passthrough", "ema", "ca", "scaled_cumulative"])
             cfg["shape"] = rc.choice([[2], [3]])
@@ -118,6 +122,13 @@ class ConfigWorld(World):
             n = cfg["nout"] if cfg["ckind"] == "dense" else cfg["nin"]
             nrn = nn_.LIF((n,), dt, rest_v=-60.0, reset_v=-65.0, thresh_v=-50.0, refrac_t=2.0, time_constant=8.0, batch_size=B)
             return nn_.Serial(conn, nrn)
+        if kind == "record":
+            from inferno import Module, RecordTensor
+
+            owner = Module()
+            RecordTensor.create(owner, "rec", dt, c["duration_k"] * dt, torch.zeros(cfg["shape"]), inclusive=c["inclusive"])
+            owner.clear = lambda: owner.rec.reset(0)
+            return owner
         k = cfg["rkind"]
         kw = dict(duration=c["duration_k"] * dt, inplace=c["inplace"])
         if k == "nearest":
@@ -154,6 +165,8 @@ class ConfigWorld(World):
             if kind == "layer":
                 g.update({"neuron_dt": m.neuron.dt, "neuron_B": m.neuron.batchsz})
             return g
+        if kind == "record":
+            return {"dt": m.rec.dt, "duration": m.rec.duration, "inclusive": bool(m.rec.inclusive)}
         return {"dt": m.dt, "duration": m.duration, "inplace": m.inplace}
 
     def _apply(self, cfg, m, op, cur):
@@ -164,6 +177,19 @@ class ConfigWorld(World):
         if a == "to64":
             m.to(torch.float64)
             return {}
+        if kind == "record":
+            if a == "dt":
+                m.rec.dt = op["v"]
+                cur["dt"] = op["v"]
+                return {"dt": op["v"]}
+            if a == "duration_k":
+                d = op["v"] * cur["dt"]
+                m.rec.duration = d
+                cur["duration_k"] = op["v"]
+                return {"duration": d}
+            if a == "inclusive":
+                m.rec.inclusive = bool(op["v"])
+                return {"inclusive": bool(op["v"])}
         if a == "dt":
             if kind == "layer":
                 m.connection.dt = op["v"]
@@ -362,6 +388,15 @@ class ConfigWorld(World):
                     else:
                         o.append(m(x))
                         o.append(m.neuron.voltage)
+                elif kind == "record":
+                    shape = tuple(cfg["shape"])
+                    m.rec.push(torch.randn(shape, generator=gg).to(dtype))
+                    o.append(m.rec.peek())
+                    o.append(torch.tensor(float(m.rec.recordsz)))
+                    if op["query"]:
+                        lim = m.rec.dt * (m.rec.recordsz - 1)
+                        for tq in (0.0, lim, lim * 0.4):
+                            o.append(m.rec.select(tq, None, tolerance=1e-6))
                 else:
                     shape = tuple(cfg["shape"])
                     x = (torch.rand((B,) + shape, generator=gg) < op["p"]).to(dtype)
